@@ -120,6 +120,7 @@ pub fn gen_tape(family: u8, seed: u64, len: usize, flt: Flt, positive: bool, sca
     let big = scale * 10f64.powf(2.0 + 4.0 * r.unit());
     let walk_step = scale * 1e-3;
     let mut pending: Option<f64> = None;
+    let mut special_prev = false;
     for i in 0..len {
         let x = match family {
             0 => scale * (0.5 + r.unit()),
@@ -188,6 +189,22 @@ pub fn gen_tape(family: u8, seed: u64, len: usize, flt: Flt, positive: bool, sca
                 let max = if flt == Flt::F32 { f32::MAX as f64 } else { f64::MAX };
                 max * 2f64.powi(-26) * (0.5 + r.unit()) * if r.chance(0.6) { 1.0 } else { -1.0 }
             }
+        };
+        // boundary values: identity elements of the accumulation spaces (0 for sums, 1 whose
+        // logarithm is 0 and whose reciprocal is 1), signed zero, the scale itself. Two in a row
+        // now and then, so that whole chunks consist of them.
+        let x = if family < FAM_TINY && (r.chance(0.03) || (i > 0 && special_prev && r.chance(0.5))) {
+            special_prev = true;
+            let sp: &[f64] = if family == FAM_EXACT { &[0.0, 1.0, -1.0] } else if positive { &[1.0, 1.0, 2.0, 0.5] } else { &[0.0, 0.0, -0.0, 1.0, -1.0] };
+            let v = sp[r.below(sp.len() as u64) as usize];
+            if family == FAM_EXACT {
+                v * scale
+            } else {
+                v
+            }
+        } else {
+            special_prev = false;
+            x
         };
         let x = fix(x);
         // round to the element type and re-fix zero if positivity is required
